@@ -196,7 +196,7 @@ def r5_pruning_order(ctx, chk, rule="C13.5"):
     for q in ("tad.py::Solver.prune_states", "tad.py::Solver.prune_paths", "tad.py::Solver.prune_reachability"):
         f = ctx.func(q)
         sx = SymX(ctx, f, "Solver", inline_depth=0).run()
-        slist = ("attr", ("v", "self"), "state_list")
+        slist = shared.SLIST(ctx)
         for lid, L in sx.loops.items():
             if L.kind != "for" or L.source != slist:
                 continue
